@@ -11,6 +11,7 @@ import Mathlib.Tactic.FieldSimp
 import Mathlib.Algebra.Order.Field.Basic
 import Mathlib.Algebra.Order.Ring.Abs
 import Mathlib.Algebra.Order.AbsoluteValue.Basic
+import Mathlib.Analysis.SpecialFunctions.Pow.Real
 namespace BEI.Props.C18
 open BEI Mod
 
@@ -240,6 +241,44 @@ theorem dims_kept (v : Value) (nx ny nz : Bool) (fx fy fz lo hi d : Rat) (n1 n2 
 theorem swizzle_dims (s : Swz) (x : Rat) :
     (swizzleV s (.a1 x)).dim = (match s with | .yxz | .zxy => .a2 | .zyx | .yzx => .a3 | .xzy => .a1) := by
   cases s <;> rfl
+
+/-- `value.abs().powf(e).copysign(value)` over the reals, for exponents that are not natural numbers -/
+noncomputable def expReal (x e : ℝ) : ℝ := if x < 0 then -(|x| ^ e) else |x| ^ e
+
+/-- 0 and ±1 are fixed points of the curve for **every** non-zero real exponent — which is why the exact model
+    (`Mod.expFrac`: the promoted input itself) is right on the inputs whose components are 0, 1 or −1, the only ones the
+    correspondence sends with such exponents -/
+theorem expCurve_fixed_real (e : ℝ) (he : e ≠ 0) :
+    expReal 0 e = 0 ∧ expReal 1 e = 1 ∧ expReal (-1) e = -1 := by
+  refine ⟨?_, ?_, ?_⟩
+  · simp [expReal, Real.zero_rpow he]
+  · simp [expReal]
+  · simp [expReal]
+
+/-- sign is preserved for every real exponent -/
+theorem expCurve_sign_real (x e : ℝ) : 0 ≤ expReal x e * x := by
+  unfold expReal
+  split
+  · rename_i h
+    have : 0 ≤ |x| ^ e := Real.rpow_nonneg (abs_nonneg x) e
+    nlinarith
+  · rename_i h
+    have : 0 ≤ |x| ^ e := Real.rpow_nonneg (abs_nonneg x) e
+    have hx : 0 ≤ x := not_lt.mp h
+    exact mul_nonneg this hx
+
+/-- on natural exponents the real curve is the model's `expCurve1` -/
+theorem expReal_nat (x : ℚ) (n : ℕ) : expReal (x : ℝ) (n : ℝ) = ((expCurve1 x n : ℚ) : ℝ) := by
+  unfold expReal expCurve1 absQ signumQ
+  rw [Real.rpow_natCast]
+  rcases lt_trichotomy x 0 with h | h | h
+  · have hr : (x : ℝ) < 0 := by exact_mod_cast h
+    simp [hr, h, not_lt.mpr (le_of_lt h), abs_of_neg hr]
+  · subst h
+    simp
+  · have hr : ¬ (x : ℝ) < 0 := by push_cast; exact not_lt.mpr (by exact_mod_cast le_of_lt h)
+    have hr' : (0 : ℝ) ≤ x := by exact_mod_cast le_of_lt h
+    simp [hr, h, not_lt.mpr (le_of_lt h), abs_of_nonneg hr']
 
 /-! ### DeltaLerp (speed ≥ 0, delta ≥ 0) -/
 
